@@ -105,7 +105,7 @@ func TestVerif_C13_ZA(t *testing.T) {
 
 func TestVerif_C13_Wrappers(t *testing.T) {
 	rec := stats.Get("C13", "wrappers")
-	rec.Rule("rapid: key, id (lengths as above, < 8192 mostly), message of 0..200 bytes (all residues mod 64), a deterministic nonce stream. The arguments of Sign / Verify / ZA are passed as sub-slices of ONE record buffer in a drawn order (capacity extending over the following fields, as when a wire record is parsed in place). Oracle: the record is byte-identical afterwards; Sign(id,..,msg) and SignZa(za,msg) return exactly SignHashed(identical stream, d, e) for e = sm3ref(ZA||msg) computed by the reference; Verify/VerifyZa return what VerifyHashed returns on e (for the true signature and for one with a changed id / message); Sign/Verify with an over-long id return an error. Non-trivial: (32+len(msg)) mod 64 in 55..64 or 0, or id length >= 8190, or a mutated id/message; distinct by (id,msg,key,stream).")
+	rec.Rule("rapid: key, id (lengths as above, < 8192 mostly), message of 0..9000 bytes (half 0..200 with all residues mod 64, a quarter within 72 below / 40 above a power of two, a quarter uniform), a deterministic nonce stream. The arguments of Sign / Verify / ZA are passed as sub-slices of ONE record buffer in a drawn order (capacity extending over the following fields, as when a wire record is parsed in place). Oracle: the record is byte-identical afterwards; Sign(id,..,msg) and SignZa(za,msg) return exactly SignHashed(identical stream, d, e) for e = sm3ref(ZA||msg) computed by the reference; Verify/VerifyZa return what VerifyHashed returns on e (for the true signature and for one with a changed id / message); Sign/Verify with an over-long id return an error. Non-trivial: (32+len(msg)) mod 64 in 55..64 or 0, or id length >= 8190, or a mutated id/message; distinct by (id,msg,key,stream).")
 	t.Cleanup(stats.FlushAll)
 	rapid.Check(t, func(t *rapid.T) {
 		foreignCalls(t, rec, "foreign") // state left behind by other entry points must not matter
@@ -117,7 +117,7 @@ func TestVerif_C13_Wrappers(t *testing.T) {
 			n = gen.Int(t, "idlenU", 0, 80)
 		}
 		id := gen.RandBytes(r, n)
-		msg := gen.RandBytes(r, gen.Int(t, "msglen", 0, 200))
+		msg := gen.RandBytes(r, gen.Len(t, "msglen", 9000))
 		id, idShape := gen.Absent(t, "id", id)
 		msg, _ = gen.Absent(t, "msg", msg)
 		n = len(id)
